@@ -36,7 +36,7 @@ from coqfmt import zraw, b, lst, opt, tup
 replay = common.generic_replay
 
 PRELUDE = '''From Model Require Import Graph Kekule Thiele.
-From Proofs Require Import KekuleSound KekuleLink.
+From Proofs Require Import KekuleSound KekuleLink KekulePrep.
 Import ListNotations.
 Open Scope Z_scope.
 Definition A (n num chg h : Z) : Z * atom := (n, mkAtom num None chg false (Some h) None).
@@ -630,10 +630,11 @@ class Pipe:
         ck.case(('prep', tag, label), nontrivial=aromatic_input and not prep_raises)
         if not prep_raises and rings and (full or kind in ('curated', 'malformed', 'arenes.sdf')):
             comps = self.component_cases(before, label, m0, cases)
-            # the hypotheses of Proofs.KekuleLink.kekule_chain (whole skeleton simple and symmetric, the molecule drawn as
-            # rings / double_bonded / pyrroles say, the components split the skeleton, every component well formed) hold
-            # exactly when the aromatic bonds of the input are the bonds of the skeleton: then "kekule() output is accepted
-            # by kekule_rel_core" is the theorem, not only the per-output case below
+            # the hypotheses of Proofs.KekulePrep.kekule_prepare_chain (simple symmetric molecule graph, every SSSR ring inside
+            # the aromatic atoms has aromatic bonds only, no bond reset, the components split the skeleton, every component
+            # well formed) hold exactly when the aromatic bonds of the input are the bonds of the skeleton: then "kekule()
+            # output is accepted by kekule_rel_core" is the theorem, not only the per-output case below (that the molecule is
+            # `drawn` as rings / double_bonded / pyrroles say is proved from the model of __prepare_rings)
             arom = {frozenset((n, k_)) for n, nb in before._bonds.items() for k_, bd in nb.items() if int(bd) == 4}
             skel = {frozenset((n, k_)) for n, ms in rings.items() for k_ in ms}
             well = arom == skel and all(component_wf(R, d_, p_) for R, d_, _, p_ in comps)
@@ -644,8 +645,8 @@ class Pipe:
                 self.bad(True, f'kekule-components:{smi}', '__kekule_full does not pass every skeleton atom to exactly one _kekule_component call with its rows and the two sets restricted to it',
                          label, [(sorted(R), sorted(d_), sorted(p_)) for R, d_, _, p_ in comps], [sorted(rings), sorted(db), sorted(pyr)], 'partition of the skeleton', code_of('m.kekule()'))
             ct = lst([tup(lst([tup(zraw(n), lst(ms, zraw)) for n, ms in R.items()]), lst(sorted(d_), zraw), lst(sorted(p_), zraw)) for R, d_, _, p_ in comps])
-            cases.append((f'Bool.eqb (chain_hyp g{i} {rt} {lst(sorted(db), zraw)} {lst(sorted(pyr), zraw)} {ct}) {b(well)}',
-                          ('kekule_chain hypotheses', label, list(m0._atoms)), 'prep'))
+            cases.append((f'Bool.eqb (match prepare_rings g{i} r{i} with Ok p => chain_hyp2 g{i} r{i} p {ct} | Err _ => false end) {b(well)}',
+                          ('kekule_prepare_chain hypotheses', label, list(m0._atoms)), 'prep'))
             ck.case(('chain', tag, label), nontrivial=well)
             ck.count('kekule_chain: hypotheses ' + ('hold (acceptance of the kekule() output is a theorem)' if well else 'do not hold (mis-drawn input: per-output check only)'))
         if misdrawn:
@@ -1577,7 +1578,7 @@ def run(ck):
                         'test/heterocycles_charges.smi, a lipophilicity.csv sample; each also under one random renumbering. non-trivial = the molecule has '
                         'aromatic bonds and the conversion produced a form (not InvalidAromaticRing); grid: the state is accepted; search: the generator yielded')
     t00 = time.time()
-    proved = common.standard_proof_steps(ck, translators=['elements'], extra_targets=['model/Thiele.vo'])
+    proved = common.standard_proof_steps(ck, translators=['elements', 'kekulecls', 'thielecls'], extra_targets=['model/Thiele.vo'])
     t_proof = time.time()
     rules_need_aromatic_atom(ck)
     cs = Cases('c05')
@@ -1619,7 +1620,7 @@ def run(ck):
     ck.extra['seconds'] = {'proof steps': round(t_proof - t00, 1), 'grid': round(t_grid - t_proof, 1), 'real code + oracles': round(t_py - t_grid, 1), 'coq cases': round(time.time() - t_py, 1)}
     prep_failed = [c for c in failed if c[2] == 'prep']
     rel_failed = [c for c in failed if c[2] != 'prep']
-    ck.oblige('correspondence: Kekule.__prepare_rings == Model.Kekule.prepare_rings (atom-state grid + whole molecules), kekule() == kekule_driver given the search result, _kekule_component == kekule_component (molecules + generated components), thiele(fix_tautomers=False / True) == Model.Thiele.thiele_model / thiele_model_t, hypotheses of kekule_chain (chain_hyp) hold exactly on the inputs whose aromatic bonds are the skeleton bonds',
+    ck.oblige('correspondence: Kekule.__prepare_rings == Model.Kekule.prepare_rings (atom-state grid + whole molecules), kekule() == kekule_driver given the search result, _kekule_component == kekule_component (molecules + generated components), thiele(fix_tautomers=False / True) == Model.Thiele.thiele_model / thiele_model_t, hypotheses of kekule_prepare_chain (chain_hyp2) hold exactly on the inputs whose aromatic bonds are the skeleton bonds',
               ok and not prep_failed, 'correspondence', log[-1500:] or str([c[1] for c in prep_failed[:5]]))
     ck.oblige('every kekule() / enumerate_kekule() / thiele() output is accepted by the Coq checkers kekule_rel / thiele_rel', ok and not rel_failed,
               'correspondence', str([c[1] for c in rel_failed[:5]]))
